@@ -1,13 +1,16 @@
 import RsyncModel.Driver.Util
 import RsyncModel.Driver.MuxOps
+import RsyncModel.Driver.AclOps
 open Driver
 
 def dispatch (line : String) : String :=
-  let fs := fields line
+  -- a trailing ` #…` is a human-readable comment for replays
+  let fs := fields ((line.splitOn " #").headD "")
   match fs with
   | [] => "bad-op"
   | op :: _ =>
     if op.startsWith "mux." then muxOp fs
+    else if op == "acl" then aclOp fs
     else "bad-op"
 
 partial def loop (h : IO.FS.Stream) (out : IO.FS.Stream) : IO Unit := do
